@@ -28,7 +28,7 @@ def make_layer(tfl, c, units, dtype="float32"):
   return layer
 
 
-def evaluate(tf, tfl, c, K, B, X, dtype="float32"):
+def evaluate(tf, tfl, c, K, B, X, dtype="float32", graph=False):
   """K: (n, units), B: (units,), X: (batch, n) -> (batch, units)."""
   units = K.shape[1]
   ft = np.float32 if dtype == "float32" else np.float64
@@ -36,10 +36,14 @@ def evaluate(tf, tfl, c, K, B, X, dtype="float32"):
   layer.kernel.assign(K.astype(ft))
   if c["useBias"]:
     layer.bias.assign(ft(B[0]) if units == 1 else B.astype(ft))
+  fn = layer
+  if graph:     # traced once with an unknown batch size, as model.fit / serving do
+    spec = tf.TensorSpec([None, X.shape[1]] if units == 1 else [None, units, X.shape[1]], tf.as_dtype(ft))
+    fn = tf.function(lambda z: layer(z), input_signature=[spec])
   if units == 1:
-    return layer(tf.constant(X.astype(ft))).numpy().reshape(len(X), 1)
+    return fn(tf.constant(X.astype(ft))).numpy().reshape(len(X), 1)
   Xu = np.repeat(X[:, None, :], units, axis=1)
-  return layer(tf.constant(Xu.astype(ft))).numpy()
+  return fn(tf.constant(Xu.astype(ft))).numpy()
 
 
 def events_for(c, K, B, X, out, ctx, path):
@@ -110,7 +114,7 @@ def run(ctx):
       if hasLo[i]:
         X[3, i] = -float(2 ** 20 if j % 2 else 2 ** 26)
     # every fourth layer computes in float64
-    out = evaluate(tf, tfl, c, K, B, X, dtype="float64" if j % 4 == 3 else "float32")
+    out = evaluate(tf, tfl, c, K, B, X, dtype="float64" if j % 4 == 3 else "float32", graph=bool(j % 3 == 1))
     events += events_for(c, K, B, X, out, ctx, "random64" if j % 4 == 3 else "random")
     ctx.nontrivial.add((json.dumps(c, sort_keys=True)))
   ctx.validate("TraceLinearLayer", events)
